@@ -85,7 +85,7 @@ def _ecdf_joint(P, pts):
     return np.array([np.mean((P[:, 0] <= a) & (P[:, 1] <= b)) for a, b in pts])
 
 
-def _stat_checks(r, cop, out, sig, case, fam, th, band_margin, band_tau, band_joint, mode, sub_idx=None):
+def _stat_checks(r, cop, out, sig, case, fam, th, band_margin, band_tau, band_joint, mode, sub_idx=None, model_tau=None):
     from mc.ref.archimedean import Ref
     from mc.ref.kendall import tau_b
     n = len(out)
@@ -103,7 +103,8 @@ def _stat_checks(r, cop, out, sig, case, fam, th, band_margin, band_tau, band_jo
     else:
         sub = out if n <= 4096 else out[np.linspace(0, n - 1, 4096).astype(int)]
     t = tau_b(sub[:, 0], sub[:, 1])
-    tm = float(Ref(fam, th).tau())
+    # the property compares with the MODEL's tau attribute; for parameterised models that is the tau of theta
+    tm = float(Ref(fam, th).tau()) if model_tau is None else model_tau
     r['extra'][f'max_{mode}_tau_dev_x1000'] = abs(t - tm) * 1000
     if not abs(t - tm) <= band_tau:
         r.violation(f'{sig}:{mode}:tau', f'{fam} theta={th}: Kendall tau of the sample {t:.4f} vs model tau {tm:.4f} '
@@ -215,10 +216,13 @@ def run_case(case):
     from copulas.bivariate.base import Bivariate
     from mc.checks.c11 import theta_for
     from mc.ref import samplers
-    for tau in ((0.2, 0.5, 0.75) if fam != 'frank' else (-0.6, -0.2, 0.3, 0.7)):
+    reused = Bivariate(copula_type=fam, random_state=5)
+    taus = (0.2, 0.5, 0.75) if fam != 'frank' else (-0.6, -0.2, 0.3, 0.7)
+    for it, tau in enumerate(taus + taus[::-1][1:]):
         X = samplers.sample(fam, theta_for(fam, abs(tau)) * (1 if tau > 0 else -1), 400,
                             points=A.lattice(401, 2)[1:])
-        cop = Bivariate(copula_type=fam, random_state=5)
+        # first pass: a fresh object per fit; second pass: ONE object re-fitted through the tau list (refit history)
+        cop = Bivariate(copula_type=fam, random_state=5) if it < len(taus) else reused
         cop.fit(X)
         k = 32
         m = A.midpoints(k)
@@ -232,7 +236,7 @@ def run_case(case):
             return r
         _bracket_rows(r, Ref(fam, thf), out, Vg.ravel(), Cg.ravel(), sig, case, fam, thf, limit=40)
         _stat_checks(r, cop, out, sig, case, fam, thf, BAND_MARGIN / k + 0.01, BAND_TAU + 0.01, BAND_JOINT + 0.01,
-                     'fitted')
+                     'fitted', model_tau=float(cop.tau))
         r.state(('fitted', fam, tau))
     r['sample'] = {'mode': mode, 'family': fam}
     return r
